@@ -25,17 +25,29 @@ Definition check_dobs (m : res val) (o : dobs) : bool :=
   | _, _ => false
   end.
 
-Inductive case := Case (t : ty) (v : val) (hdr : bool) (o : sobs).
+(* a step of a history on ONE type object: serialize a value / deserialize a byte string; the model is pure, so every step is
+   judged on its own, whatever the application did with earlier results *)
+Inductive step := SSer (v : val) (hdr : bool) (o : sobs) | SDes (data : list Z) (hdr : bool) (o : dobs).
+
+Inductive case := Case (t : ty) (v : val) (hdr : bool) (o : sobs) | Hist (t : ty) (steps : list step).
 
 Definition type_ok (t : ty) : bool := wft t && serializable t && is_composite t.
 
+Definition check_ser (t : ty) (v : val) (hdr : bool) (o : sobs) : bool :=
+  match serialize t v hdr, o with
+  | Ok bs, SBytes bs' back => list_eqb bs bs' && check_dobs (deserialize t bs hdr) back
+  | Err e, SErr c => ecls_eqb (cls e) c
+  | _, _ => false
+  end.
+
+Definition check_step (t : ty) (s : step) : bool :=
+  match s with
+  | SSer v hdr o => check_ser t v hdr o
+  | SDes data hdr o => forallb (fun b => (0 <=? b) && (b <=? 255)) data && check_dobs (deserialize t data hdr) o
+  end.
+
 Definition check_case (c : case) : bool :=
   match c with
-  | Case t v hdr o =>
-      type_ok t &&
-      match serialize t v hdr, o with
-      | Ok bs, SBytes bs' back => list_eqb bs bs' && check_dobs (deserialize t bs hdr) back
-      | Err e, SErr c => ecls_eqb (cls e) c
-      | _, _ => false
-      end
+  | Case t v hdr o => type_ok t && check_ser t v hdr o
+  | Hist t steps => type_ok t && forallb (check_step t) steps
   end.
